@@ -18,6 +18,7 @@ Non-interference argument in four structural legs:
  Rp presence      : optional numeric fields are tested with `is None` / membership, never by truthiness (0 is a value).
  R6 carried       : per-request loops carry no local from one iteration to the next (must-definition dataflow).
  R7 defaults      : mutable defaults of the request parameter tables are copied per instance.
+ Re for-each      : loops that act on every item are never left early (break / return).
 """
 import ast
 
@@ -342,6 +343,15 @@ def r7_defaults(ctx):
     ctx.need('R7.defaults', 3)
 
 
+def re_foreach(ctx):
+    """Re: loops that act on EVERY item (store on the item / call a function that writes it) are never left early (break / return):
+    the items after the exit would silently be skipped; the two search loops of the package are a frozen table"""
+    from .common import foreach_rule
+    from ..memo import scope_funcs
+    foreach_rule(ctx, 'Re.for-each', scope_funcs(ctx.repo, 'C16'), 'later requests are not handled')
+    ctx.need('Re.for-each', 3)
+
+
 from ..memo import rule_for as _memo_rule
 
 RULES_MEMO = ('Rm.memo', _memo_rule('C16', 'requests would share a result'))
@@ -351,4 +361,4 @@ from ..presence import rule_for as _presence_rule
 
 RULES_PRESENCE = ('Rp.presence', _presence_rule('C16', 'a legal zero would be read as missing'))
 
-RULES = [('R5.memo', r5_memo), ('R1.isolation', r1_isolation), ('R2.no-leak', r2_no_leak), ('R3.redesign', r3_redesign), ('R4.shared', r4_shared), RULES_MEMO, RULES_PRESENCE, ('R6.carried', r6_carried), ('R7.defaults', r7_defaults)]
+RULES = [('R5.memo', r5_memo), ('R1.isolation', r1_isolation), ('R2.no-leak', r2_no_leak), ('R3.redesign', r3_redesign), ('R4.shared', r4_shared), RULES_MEMO, RULES_PRESENCE, ('R6.carried', r6_carried), ('R7.defaults', r7_defaults), ('Re.for-each', re_foreach)]
